@@ -14,3 +14,7 @@ claim("C09", "key-flow (taint) analysis on the prelude AST, constructor-key comp
 claim("C15", "exhaustiveness over $kind arms, escape-chain recognition on the keyFor closures, template-argument provenance",
       "Decides that every comparable kind installs keyFor and only func/map/slice are non-comparable, that composite keys escape the escape character then the separator before joining, that interface keys are keyed by type identity (shared taint rule), and that literal/index/store/delete use the map's key type and {k,v} records; nil-map arms present. Does not decide operation histories.",
       TB, "DESIGN.md §3 C15")
+
+claim("C03", "pairing/must-follow analysis on the acorn AST of the channel runtime, FIFO-discipline lint, template-to-runtime encoding agreement",
+      "Decides the shape of the channel protocol: every wait-queue enqueue is followed by $block() and a continuation return, every queued closure reschedules the captured goroutine, select registrations are paired with deregistration, queues are push/shift only, $close rejects nil/closed channels and drains both queues, the compiler's select encoding matches $select's dispatch. Does not decide behaviour under interleavings (schedules, fairness, deadlock detection).",
+      TB, "DESIGN.md §3 C03")
